@@ -300,6 +300,18 @@ def run_check(pid, tier, seed):
                     candidates.append(((1, w0, 1), unshrunk))
         except BrokenProcessPool:
             stats.errors.append("a worker process died during the random phase (killed / out of memory)")
+    # 4. property-specific extra phase (e.g. a coverage-guided fuzzing campaign whose crashes are re-judged through check())
+    extra_info = None
+    if violation is None and not candidates and hasattr(prop, "extra_phase"):
+        try:
+            extra_cases, extra_info = prop.extra_phase(tier, seed)
+            for idx, case in enumerate(extra_cases):
+                _, r = _enum_worker((idx, case))
+                stats.add(r)
+                if r.failure and not r.known and not r.inconclusive:
+                    candidates.append(((2, idx), r.failure))
+        except Exception:
+            stats.errors.append("extra phase: " + traceback.format_exc()[-1500:])
     exit_code = 0
     nviol = 0
     if violation is None and candidates:
@@ -339,6 +351,8 @@ def run_check(pid, tier, seed):
         "workers": WORKERS,
     }
     cov.update(extra)
+    if extra_info:
+        cov["extra_phase"] = extra_info
     if enum_exhaustive:
         cov["exhaustive"] = True
     ev = {"property_id": pid, "tier": tier, "seed": seed, "level": prop.LEVEL, "coverage": cov,
